@@ -15,7 +15,9 @@ import (
 	"testing"
 	"time"
 
+	"google.golang.org/grpc/codes"
 	"google.golang.org/grpc/metadata"
+	"google.golang.org/grpc/status"
 
 	"github.com/gotid/god/lib/load"
 	"github.com/gotid/god/lib/logx"
@@ -56,6 +58,10 @@ var c09iMdPool = [][]string{
 type c09iCase struct {
 	Reqs []c09iReq `json:"reqs"`
 }
+
+type c09iErr struct{}
+
+func (*c09iErr) Error() string { return "c09 typed nil" }
 
 type c09iPromise struct{ pass, fail int }
 
@@ -117,6 +123,19 @@ func c09iInterp(c c09iCase) (v kit.Verdict) {
 				switch rq.Beh {
 				case "canceled":
 					return nil, context.Canceled
+				case "wrapped-deadline":
+					return nil, fmt.Errorf("c09: %w", context.DeadlineExceeded)
+				case "status-deadline":
+					return nil, status.Error(codes.DeadlineExceeded, "c09")
+				case "status-canceled":
+					return nil, status.Error(codes.Canceled, "c09")
+				case "status-unavailable":
+					return nil, status.Error(codes.Unavailable, "c09")
+				case "status-exhausted":
+					return nil, status.Error(codes.ResourceExhausted, "c09")
+				case "typed-nil-error":
+					var e *c09iErr
+					return nil, e
 				case "deadline":
 					return nil, context.DeadlineExceeded
 				case "error":
@@ -167,7 +186,7 @@ func TestVerif_C09_shedding_interceptor(t *testing.T) {
 			for i := 0; i < n; i++ {
 				rq := c09iReq{
 					Admit:  rapid.IntRange(0, 3).Draw(rt, "a") > 0,
-					Beh:    rapid.SampledFrom([]string{"ok", "deadline", "error", "panic", "canceled"}).Draw(rt, "b"),
+					Beh:    rapid.SampledFrom([]string{"ok", "ok", "deadline", "error", "panic", "canceled", "wrapped-deadline", "status-deadline", "status-canceled", "status-unavailable", "status-exhausted", "typed-nil-error"}).Draw(rt, "b"),
 					Method: rapid.SampledFrom([]string{"/c09", "/grpc.health.v1.Health/Check", "/grpc.health.v1.Health/Watch", "/grpc.reflection.v1alpha.ServerReflection/ServerReflectionInfo", "/svc.Stream/Subscribe", "", "/a/b"}).Draw(rt, "m"),
 					Ctx:    rapid.SampledFrom([]string{"bg", "bg", "deadline", "canceled", "expired"}).Draw(rt, "c"),
 				}
